@@ -561,6 +561,14 @@ Definition tok_get_name (text : list Z) (origin : option name) : res name :=
   do n <- from_text (fst vr) origin;
   choose_relativity n origin false.
 
+(* dns.wire.Parser.get_name(origin): from_wire_parser, then relativize when `if origin:` *)
+Definition parser_get_name (wire : list Z) (start : nat) (origin : option name) : res (name * nat) :=
+  do nc <- from_wire wire start;
+  match origin with
+  | Some (x :: o') => do r <- relativize (fst nc) (x :: o'); Ok (r, snd nc)
+  | _ => Ok nc
+  end.
+
 (* ---------- harness interface ---------- *)
 Definition obs_of_name (n : name) : obs := L (map B n).
 Definition obs_of_res {A} (f : A -> obs) (r : res A) : obs :=
@@ -656,6 +664,11 @@ Definition run (c : obs) : obs :=
       match name_of_obs a, oname_of_obs o with
       | Some a, Some o => obs_of_res obs_of_name (choose_relativity a o (rel =? 1))
       | _, _ => E eBadCase end
+  | L [I 24; B w; I off; o] =>
+      match oname_of_obs o with
+      | Some o => obs_of_res (fun nc => L [obs_of_name (fst nc); I (Z.of_nat (snd nc))])
+                             (parser_get_name w (Z.to_nat off) o)
+      | None => E eBadCase end
   | L [I 19; L a; L b] =>
       match name_of_obs a, name_of_obs b with
       | Some a, Some b => L [ob (name_eqb a b); ob (name_ne a b); ob (name_lt a b); ob (name_le a b);
